@@ -581,7 +581,7 @@ fn check_mix(case: &MixCase, ctx: &mut Ctx) {
     };
     ctx.label(format!("first_kind_{}", ["scratchpad", "transactions", "chunk"][first as usize]));
     if !established {
-        ctx.fail("valid_first_upload_not_stored", format!("setup {:?} left {held:?}", case.setup));
+        ctx.precondition_failed("valid_first_upload_not_stored", format!("setup {:?} left {held:?}", case.setup));
         return;
     }
     let mut intrusions = 0;
